@@ -251,7 +251,7 @@ func runC10(c *report.Ctx) {
 	ruleEligibility(c, "locks")
 
 	// ---- (5) the two history buckets keep their own key layouts --------------------------------------------
-	ruleSchema(c, []string{"nsGameHistory", "nsUnminedGameHistory"}, 6, 5)
+	ruleSchema(c, []string{"nsGameHistory", "nsUnminedGameHistory"}, 6, 3)
 	ruleLayout(c, []string{"game-history-key", "credit-value"}, 15)
 	ruleFlagByteRMW(c)
 	ruleMaturityPerTemplate(c)
